@@ -91,20 +91,28 @@ def _absorb(U):
 
 
 # ------------------------------------------------------------------ divide
-def _divide_unit(ndiv, periodic):
-    @unit("C06", "KpointBZparallel.divide[ndiv=%s,periodic=%s]" % (ndiv, periodic), scope="shape:ndiv=%s" % (ndiv,), expect_min=5)
+def _divide_unit(ndiv, periodic, prop="C06"):
+    @unit(prop, "KpointBZparallel.divide[ndiv=%s,periodic=%s]" % (ndiv, periodic), scope="shape:ndiv=%s; use_symmetry on/off; with and without a point group; result in memory or dumped" % (ndiv,), expect_min=40)
     def _d(U):
         made = []
 
         class KP:
             def __init__(self, **kw):
                 self.__dict__.update(kw)
+                self.result_set = False
                 made.append(self)
+
+            def set_result(self, r):
+                self.result_set = True
+        merged = []
         f = U.fn(FK, "KpointBZparallel.divide", globs=dict(np=Shim(symbolic_zeros=False), KpointBZparallel=KP,
-                                                          exclude_equiv_points=lambda lst: None), model=False)
+                                                          exclude_equiv_points=lambda lst: merged.append(list(lst))), model=False)
 
         def body():
             del made[:]
+            del merged[:]
+            use_sym = bool(ctx().choose(2, "use_symmetry"))
+            pg = [None, "the point group"][ctx().choose(2, "point group present")]
             me = _Obj()
             me.K = sym_real_array("K", (3,))
             me.dK = sym_real_array("dK", (3,))
@@ -112,19 +120,25 @@ def _divide_unit(ndiv, periodic):
                 ctx().assume(me.dK[j] > 0)
             me.factor = sreal("w")
             me.NKFFT = rnp.array([2, 3, 4])
-            me.pointgroup = None
+            me.pointgroup = pg
             me.refinement_level = 3
             me.set_factor = lambda x: setattr(me, "factor", x)
             me.get_result = lambda: "res"
+            # state of an evaluated K-point as KpointBZ keeps it: the result in memory, or dumped / discarded (None)
+            me.result = ["res", None][ctx().choose(2, "result in memory / dumped")]
+            me.was_evaluated_flag = True
             w0 = me.factor
             nd = rnp.array(ndiv)
-            out = f(me, nd, rnp.array(periodic), use_symmetry=True)
+            out = f(me, nd, rnp.array(periodic), use_symmetry=use_sym)
+            U.ensure("symmetry-equivalent children are merged exactly when symmetry is in use AND a point group exists (once, over all children); otherwise every sub-cell keeps its own point",
+                     (len(merged) == 1 and len(merged[0]) == len(made) and all(a is b for a, b in zip(merged[0], made))) if (use_sym and pg is not None) else merged == [])
+            U.ensure("no child arrives already evaluated: each is evaluated (and added to the integral) by the next iteration", not any(c.result_set for c in made))
             eff = [ndiv[j] if periodic[j] else 1 for j in range(3)]
             ntot = eff[0] * eff[1] * eff[2]
             U.ensure("prod(ndiv) children (non-periodic directions are not divided)", len(out) == ntot)
             U.ensure("every child carries weight/prod(ndiv); the weights add up to the parent's", lambda: land(*[c.factor == w0 / ntot for c in out]))
             U.ensure("the parent keeps no weight", lambda: lift(me.factor) == 0)
-            U.ensure("children are one refinement level deeper, same FFT grid and point group", all(c.refinement_level == 4 and c.NKFFT is me.NKFFT and c.pointgroup is None for c in out))
+            U.ensure("children are one refinement level deeper, same FFT grid and point group", all(c.refinement_level == 4 and c.NKFFT is me.NKFFT and c.pointgroup is pg for c in out))
             U.ensure("child cell size is dK/ndiv", lambda: land(*[c.dK[j] == me.dK[j] / eff[j] for c in out for j in range(3)]))
             # tiling: the children's cells are exactly the sub-cells of the parent cell, each sub-cell once
             cells = {}
@@ -307,6 +321,40 @@ def _tetra(U):
 class types_ns:
     def __init__(self, **kw):
         self.__dict__.update(kw)
+
+
+@unit("C06", "GridTetra.get_K_list: fresh, unevaluated copies of the grid's tetrahedra (a second run starts from the same tiling with weight one)", scope="shape:3 tetrahedra, symbolic vertices and weights", expect_min=4)
+def _tetra_klist(U):
+    made = []
+
+    class KT:
+        def __init__(self, **kw):
+            self.__dict__.update(kw)
+            self.result, self.was_evaluated_flag = None, False        # what KpointBZ.__init__ sets
+            made.append(self)
+    cp = U.fn(FT, "KpointBZtetra.copy", globs=dict(np=rnp, KpointBZtetra=KT), model=False)
+    KT.copy = lambda self: cp(self)
+    gk = U.fn(FG, "GridTetra.get_K_list", globs=dict(np=rnp), model=False)
+
+    def body():
+        del made[:]
+        grid = _Obj()
+        grid.K_list = []
+        for i in range(3):
+            grid.K_list.append(KT(vertices=sym_real_array("v%d" % i, (4, 3)), K=sym_real_array("K%d" % i, (3,)), NKFFT="FFT", factor=sreal("w%d" % i), basis="B", refinement_level=i, split_level=2 * i))
+            grid.K_list[-1].result, grid.K_list[-1].was_evaluated_flag = "stale result of an earlier run", True
+            grid.K_list[-1].factor = sreal("w_now%d" % i) if i == 1 else grid.K_list[-1].factor          # a point whose weight an earlier run changed keeps ITS state; the copy takes the current weight
+        own = list(grid.K_list)
+        n_before = len(made)
+        out = gk(grid, use_symmetry=bool(ctx().choose(2, "use_symmetry")))
+        U.ensure("as many K-points as the grid has tetrahedra, in the same order, none of them the grid's own object (frame: a run that refines or evaluates them leaves the grid untouched)",
+                 len(out) == 3 and all(o is not k for o in out for k in own) and len(set(map(id, out))) == 3 and grid.K_list == own and len(made) == n_before + 3)
+        U.ensure("every copy is unevaluated", all(o.result is None and o.was_evaluated_flag is False for o in out))
+        # KpointBZtetra(vertices, K) re-centres: centre + vertices are the absolute corners; the stored vertices are centred, so K and vertices come out unchanged
+        U.ensure("every copy has the same corners, weight, basis, FFT grid and levels as the grid's tetrahedron",
+                 lambda: land(*[land(*[lift(o.vertices[a][j]) == lift(k.vertices[a][j]) for a in range(4) for j in range(3)] + [lift(o.K[j]) == lift(k.K[j]) for j in range(3)] + [lift(o.factor) == lift(k.factor)])
+                                for o, k in zip(out, own)]) if all(o.basis == "B" and o.NKFFT == "FFT" and o.refinement_level == k.refinement_level and o.split_level == k.split_level for o, k in zip(out, own)) else False)
+    U.run(body, check_feasible=False)
 
 
 def _const(relpath, name):
